@@ -10,6 +10,8 @@ use d_common::*;
 use verif_harness::*;
 
 struct C04 {
+    /// generator only (S10): number of user namespaces of the next squares (None = the default 1..9)
+    users: Option<usize>,
     eds: Option<ExtendedDataSquare>,
     dah: Option<DataAvailabilityHeader>,
 }
@@ -52,8 +54,8 @@ fn set(line: &str, key: &str, val: &str) -> String {
 
 impl C04 {
     fn gen_for_square(&mut self, rng: &mut Rng, w: usize, per_square: usize, out: &mut Emitter) {
-        let (eds, _) = gen_eds(rng, w);
-        out.op(eds_line(&eds), &format!("eds/w{w}"), true);
+        let (eds, _) = gen_eds_users(rng, w, self.users);
+        out.op(eds_line(&eds), &format!("eds/w{w}{}", if self.users.is_some() { "-many-ns" } else { "" }), true);
         let w16 = w as u16;
         // honest samples: every coordinate and both axes for small squares, a sample of them otherwise
         let mut coords: Vec<(u16, u16)> = vec![];
@@ -250,7 +252,9 @@ impl Prop for C04 {
          honest samples (other position on the same tree, other tree, forged index, altered/substituted share, flipped \
          parity flag, shifted/empty/long ranges, dropped/extra/swapped/random/unordered/bit-flipped siblings, ignore_max_ns \
          flipped, absence proofs, out-of-range ids); wire-level from_raw+verify with missing fields, bad axis, short share, \
-         bad namespace, short node, leaf hash set, truncated i64 indices, fewer/more/64 siblings. Non-trivial = every case \
+         bad namespace, short node, leaf hash set, truncated i64 indices, fewer/more/64 siblings. S10 size-threshold stress: squares of width \
+         8, 16, 32 (thorough also 64, 128) with about 3 user namespaces per 4 ODS shares (up to w/2 distinct namespaces per row/column; tags \
+         eds/wN-many-ns; before at most 13 namespaces per square); EDS width 128 (ODS width 64) in the thorough tier only (driver cost). Non-trivial = every case \
          (all are structured); distinct = distinct (op, result) lines."
     }
     fn gen_ops(&mut self, rng: &mut Rng, tier: Tier, out: &mut Emitter) {
@@ -265,6 +269,20 @@ impl Prop for C04 {
                 self.gen_for_square(rng, w, per, out);
             }
         }
+        // S10 size-threshold stress: squares with about 3 user namespaces per 4 ODS shares (up to w/2 distinct
+        // namespaces in one row/column; before: at most 13 namespaces in the whole square)
+        let many: Vec<(usize, usize, usize)> =
+            if tier == Tier::Thorough { vec![(8, 4, 30), (16, 3, 40), (32, 2, 40), (64, 1, 40), (128, 1, 20)] } else { vec![(8, 1, 8), (16, 1, 8), (32, 1, 6)] };
+        for (w, squares, per) in many {
+            let k = w / 2;
+            self.users = Some(k * k * 3 / 4);
+            for _ in 0..squares {
+                self.gen_for_square(rng, w, per, out);
+            }
+        }
+        self.users = None;
+        // (EDS width 128 = ODS width 64 stays in the thorough tier only: one such square costs ~25 s in the harness
+        // and ~45 s in the Lean driver — the eds line alone is 16 MB — against ~15 s for the whole quick run)
     }
     fn run(&mut self, line: &str) -> String {
         match opname(line) {
@@ -371,5 +389,5 @@ impl Prop for C04 {
 }
 
 fn main() {
-    main_for(C04 { eds: None, dah: None });
+    main_for(C04 { users: None, eds: None, dah: None });
 }
